@@ -40,7 +40,12 @@ MANIFEST = {
             "one parallelized list included: the group case uses the fact generated from task.py distribute_calls (sync branch: "
             "one fresh invocation appended per element), a repeated member runs once per occurrence in both modes, and "
             "shared_group_invocation_refuted shows the fact is load-bearing (sharing the invocation of the earlier identical "
-            "element: same value, 1 execution in sync mode vs 2 distributed). The full-strength statement is kept as a "
+            "element: same value, 1 execution in sync mode vs 2 distributed). Facts generated from app.py direct_task (option "
+            "filter), task.py distribute_batch_calls (batch count) and prepare_arguments (common_args merge): a direct task runs "
+            "with the options its decorator was given, explicit 0 included (direct_task_runs_with_declared_options); n calls in "
+            "batches of any size b > 0 are all routed (batches_route_every_call; floor division refuted on 7 by 3); each call "
+            "receives its own parameters over a fresh copy of common_args (each_call_receives_its_own_arguments; one dict "
+            "updated in place refuted). The full-strength statement is kept as a "
             "Definition and REFUTED (sync mode is lazy: a never-read sub-task / a group member after a failing one runs 0 times "
             "in sync mode, once distributed); the serialiser hypothesis is shown necessary (an argument-dropping serialiser changes "
             "the outcome); retry_race_refuted: while set_invocation_retry publishes RETRY before incrementing, the schedule 're-run "
@@ -59,7 +64,13 @@ MANIFEST = {
             "Node ids name argument sets: the generators and the corpus repeat calls (same id = same spec = same call_id) inside "
             "one group / one body, list elements are spelled as dict / tuple / Arguments; sync-mode laziness is recognised "
             "per statement from the sync run's call tree (a group element whose result is requested but that got no "
-            "invocation of its own is never laziness). The distributed side of parallelize (distribute_batch_calls / "
+            "invocation of its own is never laziness). Cases carry an environment: app-level max_retries / "
+            "parallel_batch_size, task-level parallel_batch_size (0..3, explicit 0 = batching off), and per task whether "
+            "max_retries is a task-level option (explicit zeros) or left to the app level; group sizes 1..6 (+repeats, corpus up "
+            "to 7) straddle the batch sizes; groups pass common_args next to per-call dicts with differing key sets; the "
+            "retry accounting is judged against the DECLARED option and every body logs received vs passed keyword arguments "
+            "(oracle call-args). The three new facts stand beside the interpreters (they justify taking the declared header / "
+            "every member / own arguments at face value) rather than being threaded through them. The distributed side of parallelize (distribute_batch_calls / "
             "route_calls) has no generated fact; it is covered by the differential runs only.",
     "design_ref": "DESIGN.md §6 C19",
 }
@@ -514,8 +525,15 @@ def run_impl(mode, case, scratch, slots=1, tag="x", timeout=40.0, inject=None):
         if not sync:
             # every invocation of every task of the case must reach a final status (never-read ones included)
             deadline = time.time() + (timeout if "out" in box else 2.0)
+            pending: list = []
             while True:
-                ids = [i for t in reg.task_of.values() for i in app.orchestrator.get_task_invocation_ids(t.task_id)]
+                try:
+                    ids = [i for t in reg.task_of.values() for i in app.orchestrator.get_task_invocation_ids(t.task_id)]
+                except RuntimeError:      # the in-memory index grew under the iteration (a body is still launching calls)
+                    time.sleep(0.003)
+                    if time.time() > deadline:
+                        break
+                    continue
                 pending = [i for i in ids if not app.orchestrator.get_invocation_status(i).is_final()]
                 if not pending or time.time() > deadline:
                     break
@@ -981,6 +999,16 @@ def main(ctx: Ctx) -> int:
             "random_guard_biased": sum(1 for n, _ in cases if n.startswith("rnd")),
             "random_lazy_allowed": sum(1 for n, _ in cases if n.startswith("lazy")),
             "repeated_argument_set_corpus": sum(1 for n, _ in cases if n.startswith("repeat")),
+            "batch_corpus": sum(1 for n, _ in cases if n.startswith("batch")),
+            "common_args_corpus": sum(1 for n, _ in cases if n.startswith(("common", "percall"))),
+            "option_level_corpus": sum(1 for n, _ in cases if n.startswith("opt")),
+            "app_level_max_retries": dict(Counter(str(app_mr(c) or "default") for _, c in cases)),
+            "batch_size(task/app)": dict(Counter(f"{c.get('tbatch')}/{(c.get('app') or {}).get('parallel_batch_size')}" for _, c in cases)),
+            "nodes_by_declaration": dict(Counter(("app-level" if n.get("decl") == "a" else ("task:0" if n["mr"] == 0 else "task:>0"))
+                                                 for _, c in cases for (n, _, _) in case_nodes(c).values())),
+            "groups_with_common_args": sum(1 for _, c in cases if any(n.get("shift") is not None for (n, _, _) in case_nodes(c).values())),
+            "largest_group": max([len(c["progs"]) for _, c in cases if c["top"] in ("group", "dpar")]
+                                 + [len(st[1]) for _, c in cases for (n, _, _) in case_nodes(c).values() for st in n["body"] if st[0] in ("group", "dpar")]),
             "cases_with_a_repeated_group_member": sum(1 for _, c in cases if repeats(c)[0]),
             "cases_with_a_repeated_single_call": sum(1 for _, c in cases if repeats(c)[1]),
             "top_flavour": dict(stats["top"]), "launching_statement_kinds": dict(stats["statement_kinds"]),
@@ -1007,6 +1035,9 @@ def main(ctx: Ctx) -> int:
         "a node id names an argument set: repeated members of a group / repeated calls in a body carry the same id and the "
         "same spec (same call_id); elements of a parallelized list are spelled dict / tuple / Arguments by position",
         "serialiser oracle (state backend exception round trip) measured per run and given to run_dist as tr_drop",
+        "environment of a case: app-level config max_retries 1..3 / parallel_batch_size 0..3 or defaults, task-level "
+        "parallel_batch_size 0..3 or absent; a task declares max_retries itself (also 0) or leaves it to the app level; "
+        "keyword arguments extra (per call) and shift (common_args) are added to the body's value, declared in the spec",
         "distributed runs use the real ThreadRunner in a thread, 2 ms loop sleeps, GIL switch interval 0.5 ms; verdicts use "
         "outcome, per-node execution counts and final num_retries only; a verdict of a distributed run must reproduce on a "
         "re-run of the same case (unreproduced ones are listed under transient_unreproduced)",
@@ -1021,7 +1052,9 @@ def main(ctx: Ctx) -> int:
     if info.get("degraded"):
         ctx.notes["translator_degraded"] = info.get("error")
     return ctx.finish(
-        rule="cases = 4 refutation witnesses + 13 repeated-argument-set cases + exhaustive leaf enumeration (max_retries x retry_for x exception kind x always-"
+        rule="cases = 4 refutation witnesses + 13 repeated-argument-set cases + batch-size / common_args / option-level corpus "
+             "(group sizes x batch sizes at task and app level; heterogeneous per-call dicts with common_args; app-level vs "
+             "task-level max_retries incl. explicit 0 for plain, direct, group, direct-parallel tasks) + exhaustive leaf enumeration (max_retries x retry_for x exception kind x always-"
              "raising/first success on attempt k) + seeded random programs (depth <= 3, guard-biased and lazy-allowed streams; ~40% of "
              "the groups repeat a member, ~12% of the single calls are made twice); "
              "each case executed in sync mode, on mem+ThreadRunner and SQLite+ThreadRunner (1 slot; 2 slots when it has a group) "
